@@ -194,3 +194,14 @@ Example C15_ex_check_cut :
   let y' := check_results (fun _ => 1) y [1] [mkChk false ([[(ERaise, 0)]], Some 0)] in
   (y_uniq y', y_match y', y_chain y') = ([10; 11], [0; 1], [[]; []]).
 Proof. vm_compute. reflexivity. Qed.
+
+(* a whole run: one round whose only call is the witness above (function 0, two parameters), an expansion cut
+   between its two appends, check_results cut inside the only comparison.  The run is well formed, completes, and
+   for n = 3 the function whose chain carried the stale 'nan' ends as its own unique with an empty chain; for
+   n = 2 (no check_results) the same execution would keep [nan; 7] -- which is why calls with two parameters need
+   check_results, and why C15_small_calls_no_stale matters for n <= 2. *)
+Example C15_ex_run :
+  run_ok ex_run = true /\
+  generate (fun _ => 1) (fun c => c) 3 [1; 9] ex_run = Some (mkLibrary [1; 9] [6; 9; 1] [2; 1] [[]; []]) /\
+  generate (fun _ => 1) (fun c => c) 2 [1; 9] ex_run = Some (mkLibrary [1; 9] [6; 9] [0; 1] [[NAN; 7]; []]).
+Proof. vm_compute. auto. Qed.
